@@ -64,6 +64,18 @@ func NewPageNumberFinder(wc stringutil.WordCounter, timingInfo *data.TimingInfo,
 }
 
 func (pnf *PageNumberFinder) FindPagination(root *html.Node, pageURL *nurl.URL) (pagination data.PaginationInfo) {
+	// Anchors without a fetchable target (empty or "javascript:" href) are
+	// kept in the list of page infos as placeholders for their page number,
+	// but they must never be reported as the previous or next page.
+	defer func() {
+		if isPlaceholderURL(pagination.NextPage) {
+			pagination.NextPage = ""
+		}
+		if isPlaceholderURL(pagination.PrevPage) {
+			pagination.PrevPage = ""
+		}
+	}()
+
 	url := *pageURL
 	url.Path = strings.TrimSuffix(url.Path, "/")
 	url.RawPath = url.Path
@@ -117,6 +129,10 @@ func (pnf *PageNumberFinder) FindPagination(root *html.Node, pageURL *nurl.URL) 
 // FindOutlink parses the document to collect outlinks with numeric anchor text and numeric text
 // around them. Returns PageParamInfo, always (never null). If no page parameter is detected or
 // determined to be best, its Type is info.Unset.
+func isPlaceholderURL(url string) bool {
+	return url == "" || strings.HasPrefix(url, "javascript:")
+}
+
 func (pnf *PageNumberFinder) FindOutlink(root *html.Node, pageURL *nurl.URL) *info.PageParamInfo {
 	start := time.Now()
 
